@@ -3,3 +3,52 @@ from .classes import dens_cases, SPECS, CONTRACTS  # noqa
 
 def cases(tier, rng=None):
     return dens_cases()
+
+
+# ---------------------------------------------------------------------------------------------------------------------
+# DensityFinder.__init__ and feq_vector: the equilibrium table that getPerturbedRho subtracts.  C16 "density of f - f_eq":
+# the table holds f_eq(r_a, v_l) for EVERY global radius index a and every velocity node l (so the row `starts_r + a` read by
+# getPerturbedRho - proved in the class-level case above - is the equilibrium at the point's own radius), built with the
+# constants of the object given; the quadrature weights come from an interpolator on the velocity spline space given.
+# ---------------------------------------------------------------------------------------------------------------------
+PS = 'pygyro/poisson/poisson_solver.py'
+FI = 'pygyro/initialisation/initialiser_funcs.py'
+SI = 'pygyro/splines/spline_interpolators.py'
+SPL = 'pygyro/splines/splines.py'
+K7 = ['CN0', 'kN0', 'deltaRN0', 'rp', 'CTi', 'kTi', 'deltaRTi']
+FEQV = 'f_eq(r_vec[{a}], vPar[{b}], CN0, kN0, deltaRN0, rp, Cti, kti, deltaRti)'
+
+
+def table_cases():
+    C = dict(CONTRACTS)
+    rows = 'forall(0, {hi}, 0, len(vPar), lambda a, b: surface[a, b] == %s)' % FEQV.format(a='a', b='b')
+    C[FI + '::feq_vector'] = dict(
+        requires=['shape(surface)[0] == len(r_vec) and shape(surface)[1] == len(vPar)'],
+        modifies=['surface'],
+        ensures=[rows.format(hi='len(r_vec)')],
+        loops={'for (i, r) in enumerate(r_vec)': dict(inv=[rows.format(hi='i')]),
+               'for (j, v) in enumerate(vPar)': dict(inv=[rows.format(hi='i'),
+                                                          'forall(0, j, lambda b: surface[i, b] == %s)' % FEQV.format(a='i', b='b')])})
+    C[SI + '::SplineInterpolator1D.__init__'] = dict(abstract=True, params_order=['self', 'basis'], requires=[], ensures=[],
+                                                     modifies=[], creates={'_basis': ('expr', 'basis')})
+    C[SI + '::SplineInterpolator1D.get_quadrature_coefficients'] = dict(
+        abstract=True, params_order=['self'], returns='arr1', modifies=[],
+        # the weights are those of the velocity spline space handed to the constructor (their values: C09)
+        requires=["self._basis is caller('bspline')"], ensures=[])
+    cst = dict({'__class__': 'pygyro/initialisation/constants.py::Constants'}, **{k: 'float' for k in K7})
+    feq = 'f_eq(eta_grid[0][a], eta_grid[3][b], %s)' % ', '.join('constants.' + k for k in K7)
+    C[PS + '::DensityFinder.__init__'] = dict(
+        params={'self': {'__class__': PS + '::DensityFinder'}, 'degree': 'int', 'bspline': {'__class__': SPL + '::BSplines'},
+                'eta_grid': 'list4arr1', 'constants': cst},
+        requires=[], modifies=[],
+        ensures=['shape(self._fEq)[0] == len(eta_grid[0]) and shape(self._fEq)[1] == len(eta_grid[3])',
+                 'forall(0, len(eta_grid[0]), 0, len(eta_grid[3]), lambda a, b: self._fEq[a, b] == %s)' % feq])
+    return [dict(label='feq_vector', struct=None, key=FI + '::feq_vector', contracts=C),
+            dict(label='DensityFinder.__init__', struct=None, key=PS + '::DensityFinder.__init__', contracts=C)]
+
+
+_dens = cases
+
+
+def cases(tier, rng=None):
+    return _dens(tier, rng) + table_cases()
